@@ -42,6 +42,7 @@ type Program struct {
 	Setup   [][]Op // setup transactions
 	Target  []Op
 	SepVals bool // values in a separate segment
+	API     int  // rotates which public call performs an update / a remove (see applyOps)
 }
 
 func (p Program) Header() string {
@@ -256,10 +257,10 @@ type Result struct {
 	WriteSet    []common.VerifNode
 	Deltas      [][3]any
 	Script      *txk.Script
-	CommitStart int // index of the first call made by Commit
-	N0          int // canonical ids named before Commit began
-	Items       [][3]any // per store: name, hasTrackedItems, non-add tracked items
-	WriteItems  map[string]int // per store: tracked items with an update/remove action
+	CommitStart int                   // index of the first call made by Commit
+	N0          int                   // canonical ids named before Commit began
+	Items       [][3]any              // per store: name, hasTrackedItems, non-add tracked items
+	WriteItems  map[string]int        // per store: tracked items with an update/remove action
 	Values      map[string][]sop.UUID // per store: ids of the separate-segment value blobs the commit will write
 	OpResults   []string
 }
@@ -267,7 +268,7 @@ type Result struct {
 func applyOps(ctx context.Context, t *txk.Txn, pr Program, ops []Op, e *txk.Env) (map[int]btree.BtreeInterface[int, string], []string, error) {
 	bs := map[int]btree.BtreeInterface[int, string]{}
 	var res []string
-	for _, o := range ops {
+	for opi, o := range ops {
 		b, ok := bs[o.Store]
 		if !ok {
 			so := e.StoreOpts(storeName(o.Store), pr.Slot[o.Store], true)
@@ -287,9 +288,27 @@ func applyOps(ctx context.Context, t *txk.Txn, pr Program, ops []Op, e *txk.Env)
 		case "add":
 			ok2, err = b.Add(ctx, o.Key, o.Val)
 		case "upd":
-			ok2, err = b.Update(ctx, o.Key, o.Val)
+			// the public ways to update an item, chosen by position and key: they must be indistinguishable to everybody else
+			switch (opi + o.Key/2 + pr.API) % 3 {
+			case 1:
+				if ok2, err = b.Find(ctx, o.Key, false); ok2 && err == nil {
+					ok2, err = b.UpdateCurrentValue(ctx, o.Val)
+				}
+			case 2:
+				if ok2, err = b.Find(ctx, o.Key, false); ok2 && err == nil {
+					ok2, err = b.UpdateCurrentItem(ctx, o.Key, o.Val)
+				}
+			default:
+				ok2, err = b.Update(ctx, o.Key, o.Val)
+			}
 		case "rm":
-			ok2, err = b.Remove(ctx, o.Key)
+			if (opi+o.Key/2+pr.API)%2 == 1 {
+				if ok2, err = b.Find(ctx, o.Key, false); ok2 && err == nil {
+					ok2, err = b.RemoveCurrentItem(ctx)
+				}
+			} else {
+				ok2, err = b.Remove(ctx, o.Key)
+			}
 		case "get":
 			ok2, err = b.Find(ctx, o.Key, false)
 			if ok2 && err == nil {
@@ -507,7 +526,7 @@ type Obs struct {
 	Before     Dump
 	After      Dump
 	Res        *Result
-	RetryErr   error // result of committing the same changes again with no faults (only when the first commit failed)
+	RetryErr   error  // result of committing the same changes again with no faults (only when the first commit failed)
 	Panic      string // the code under test panicked (in the target transaction or in the retry)
 	RetryDone  bool
 	Retry      *Result
@@ -519,7 +538,7 @@ type Obs struct {
 	Pre        *DiskState // disk before the target transaction
 	PreReach   *Reach
 	Env        *txk.Env
-	N0         int // canonical ids named before Commit began
+	N0         int        // canonical ids named before Commit began
 	PostCommit *DiskState // disk right after the target commit (before any retry)
 	PostCounts map[string]int64
 	SetupErr   error
